@@ -781,7 +781,7 @@ def events(b, rng, exp, ver, players, vehicles, consts):
             p['planesCount'] = planes_count.get(p.get('shipId', 0), 0)
     # battle end
     exp['battle_result'] = None
-    if rng.random() < 0.75:
+    if rng.random() < 0.9:
         team, reason = rng.randint(0, 1), rng.randint(1, 20)
         m = b.method_def('Avatar', 'onBattleEnd')
         if m is not None:
@@ -802,6 +802,18 @@ def events(b, rng, exp, ver, players, vehicles, consts):
                 if b.call(AVATAR_ID, 'onBattleEnd', []):
                     exp['battle_result'] = {'winner_team_id': team, 'victory_type': reason}
                     b.trace.append(['battleEnd', team, reason])
+                    if rng.random() < 0.8:
+                        # the property keeps changing after the battle has ended (a new round is prepared): the result reported is the
+                        # one the battle ended with
+                        for i, (name, size, t, flags) in enumerate(b.views[b.world[LOGIC_ID]['type']]['clientProps']):
+                            if name == 'battleResult':
+                                v = benign(t, name)
+                                for e in v['d']:
+                                    if e[0] == 'winnerTeamId':
+                                        e[1] = 1 - team
+                                    if e[0] == 'finishReason':
+                                        e[1] = reason + 1
+                                b.set_prop(LOGIC_ID, 'battleResult', v)
 
 
 def compare_summary(hidden_json, exp):
